@@ -15,8 +15,8 @@
    fiber_signal_wait, directly or through a blocking receive; all other fibers
    may raise / send / try_receive as they like. *)
 From Coq Require Import List ZArith Lia Bool Arith.
-From LF Require Import Conc T1K ChanK ChanKBase ChanKProofs.
-From LF Require Signal UChan BChan MChan UChanProofs BChanProofs MChanProofs.
+From LF Require Import Conc T1K ChanK ChanKBase ChanKProofs ChanKStrand.
+From LF Require Signal UChan BChan MChan UChanProofs BChanProofs MChanProofs MChanProofs2 MChanAbs.
 Import ListNotations.
 Local Open Scope Z_scope.
 
@@ -105,6 +105,26 @@ Proof.
 Qed.
 Print Assumptions chan_exactly_once_in_sender_order.
 
+(* No stranded receiver ("sender publishes first and raises second; receiver clears the
+   signal first and re-checks second").  [wkind (stk s w) = Some WKURecv /\ sleepy (ph w s)]:
+   the receiver is inside the fiber_signal_wait of a blocking receive, before being resumed
+   (about to clear its scratch, about to CAS, registered and on its way to sleep, or
+   asleep); [avail_u s]: the queue holds a linked message (head->next <> NULL).  Then a
+   thread is about to perform a raise's exchange (the sender that linked it, between its
+   link and its raise), or — if the receiver is registered — a raiser is committed to
+   waking it or the wake-up has been delivered, or — if it has not registered yet — the
+   word is RAISED, so its CAS will fail and it re-checks the queue (signal_no_lost_raise). *)
+Theorem chan_receiver_not_stranded :
+  forall w size progs (s : ChanK.st),
+    single_waiter w progs -> UChanProofs.uchan_progs_ok w progs ->
+    reachable ChanK.M (ChanK.init size progs) s ->
+    wkind (stk s w) = Some WKURecv -> sleepy (ph w s) = true -> avail_u s ->
+    (exists r, at_rx (stk s r) = true) \/
+    (registered w s /\ ((exists r, r <> w /\ committed s r w) \/ wake_delivered w s)) \/
+    (~ registered w s /\ word s = RAISED).
+Proof. exact uchan_receiver_not_stranded. Qed.
+Print Assumptions chan_receiver_not_stranded.
+
 (* ================= 3. bounded channel ================= *)
 
 (* high - low never exceeds the capacity; a sender writes its slot only while
@@ -147,6 +167,20 @@ Theorem bounded_exactly_once_in_order :
 Proof. exact BChanProofs.bchan_fifo. Qed.
 Print Assumptions bounded_exactly_once_in_order.
 
+(* No stranded receiver, bounded channel: [avail_b s]: the slot the receiver reads next
+   (index low) holds a message.  Same conclusion as chan_receiver_not_stranded.  (The proof
+   also covers the receiver that is still reading with a stale value of high: U_b.) *)
+Theorem bounded_receiver_not_stranded :
+  forall w size progs (s : ChanK.st),
+    0 < size -> single_waiter w progs -> BChanProofs.bchan_progs_ok w progs ->
+    reachable ChanK.M (ChanK.init size progs) s ->
+    wkind (stk s w) = Some WKBRecv -> sleepy (ph w s) = true -> avail_b s ->
+    (exists r, at_rx (stk s r) = true) \/
+    (registered w s /\ ((exists r, r <> w /\ committed s r w) \/ wake_delivered w s)) \/
+    (~ registered w s /\ word s = RAISED).
+Proof. exact bchan_receiver_not_stranded. Qed.
+Print Assumptions bounded_receiver_not_stranded.
+
 (* ================= 4. multi channel ================= *)
 
 (* The stranding question (finding F-C11).  Full statement that does NOT hold:
@@ -157,12 +191,66 @@ Print Assumptions bounded_exactly_once_in_order.
    (replayed on the real code: corpus/C11.txt, identical trace): buffer empty,
    sender 2 and receiver 4 both asleep in the one waiter list, nobody runnable. *)
 Theorem multichan_no_stranded_refuted :
-  exists k progs s, reachable MChan.M (MChan.init k progs) s /\ MChanProofs.stranded s.
+  exists k progs s, reachable MChan.M (MChan.init k progs) s /\ MChanProofs2.reach_excl k progs s /\
+                    MChanProofs.stranded s.
 Proof.
   exists 1%nat, MChanProofs.strand_progs, MChanProofs.strand_state.
-  split; [exact MChanProofs.strand_reachable | exact MChanProofs.strand_stranded].
+  split; [exact MChanProofs.strand_reachable|].
+  exact MChanProofs2.strand_state_reach_excl.
 Qed.
 Print Assumptions multichan_no_stranded_refuted.
+
+(* Capacity and exactly-once-in-order, relative to mutual exclusion of the channel lock
+   (property C03, proved separately for src/fiber_mutex.c): [reach_excl] = reachable through
+   states in which at most one fiber holds the channel lock (MChanProofs2.holds / excl).
+   Full statements (comments in MChanProofs2.v): the same for plain [reachable]; what is
+   missing is exactly  forall s, reachable MChan.M (MChan.init k progs) s -> excl s. *)
+Theorem multichan_capacity_partial :
+  forall (k : nat) (progs : list (list MChan.mop)) (s : MChan.st),
+    MChanProofs2.reach_excl k progs s ->
+    0 <= cell (MChan.mem s) MChan.c_high - cell (MChan.mem s) MChan.c_low <= MChan.csize s /\
+    forall t c x p kk,
+      MChan.stk s t = [CWrite c x; FC (MChan.MSBuf p kk)] ->
+      c = MChan.c_buf (MChan.bidx (MChan.csize s) (cell (MChan.mem s) MChan.c_high)) /\
+      cell (MChan.mem s) c = 0.
+Proof. exact MChanProofs2.multichan_capacity_partial. Qed.
+Print Assumptions multichan_capacity_partial.
+
+Theorem multichan_exactly_once_in_order_partial :
+  forall (k : nat) (progs : list (list MChan.mop)) (x : MChanProofs2.ist),
+    MChanProofs2.ireach_excl k progs x ->
+    MChanProofs2.prefix (MChanProofs2.rlog x) (MChanProofs2.slog x) /\
+    cell (MChan.mem (MChanProofs2.base x)) MChan.c_high = MChanProofs2.Zlen (MChanProofs2.slog x) /\
+    cell (MChan.mem (MChanProofs2.base x)) MChan.c_low = MChanProofs2.Zlen (MChanProofs2.rlog x).
+Proof. exact MChanProofs2.multichan_exactly_once_in_order_partial. Qed.
+Print Assumptions multichan_exactly_once_in_order_partial.
+
+(* No stranding with a single sender or a single receiver.  Full statement (NOT proved):
+     forall k progs s, (exactly one fiber sends \/ exactly one fiber receives) ->
+       reachable MChan.M (MChan.init k progs) s -> ~ MChanProofs.stranded s.
+   Proved: the same on the abstract attempt-level protocol MChanAbs (each send / receive
+   attempt atomic, as it is under the channel lock; one LIFO list shared by blocked senders
+   and receivers; every completed operation wakes the top entry), for any capacity, any
+   number of fibers, any operation counts; and (third conjunct) that with several senders and
+   several receivers the abstract protocol does strand.  Missing for the full statement: the
+   refinement from MChan.M to MChanAbs, which needs C03 in full (mutual exclusion and
+   no stranded locker for the channel lock) and the atomicity of an attempt under it. *)
+Theorem multichan_no_stranded_partial :
+  (forall (size nfib s : nat) (st0 st : MChanAbs.ast),
+     (0 < size)%nat -> MChanAbs.ainit st0 -> (s < nfib)%nat ->
+     (forall i, (i < nfib)%nat -> (MChanAbs.fkind (MChanAbs.fib st0 i) = MChanAbs.Sender <-> i = s)) ->
+     MChanAbs.areach size nfib st0 st -> ~ MChanAbs.stranded size nfib st) /\
+  (forall (size nfib s : nat) (st0 st : MChanAbs.ast),
+     (0 < size)%nat -> MChanAbs.ainit st0 -> (s < nfib)%nat ->
+     (forall i, (i < nfib)%nat -> (MChanAbs.fkind (MChanAbs.fib st0 i) = MChanAbs.Receiver <-> i = s)) ->
+     MChanAbs.areach size nfib st0 st -> ~ MChanAbs.stranded size nfib st) /\
+  (MChanAbs.ainit MChanAbs.ex_init /\ MChanAbs.areach 2 5 MChanAbs.ex_init MChanAbs.ex_final /\
+   MChanAbs.stranded 2 5 MChanAbs.ex_final).
+Proof.
+  split; [exact MChanAbs.abs_no_stranded_single_sender|].
+  split; [exact MChanAbs.abs_no_stranded_single_receiver | exact MChanAbs.abs_stranded_example].
+Qed.
+Print Assumptions multichan_no_stranded_partial.
 
 (* ================= non-vacuity ================= *)
 Definition ex_sig_progs : list (list cop) := [[OWait]; [ORaise]].
@@ -192,3 +280,12 @@ Example ex_seen :
   reachable ChanK.M (ChanK.init 2 ex_sig_progs) s /\ word s = RAISED /\
   exists a p k, stk s 0%nat = [CCasC c_waiter NO_WAITER (fname 0) 3; FC (KWCas a p k)].
 Proof. split; [apply run_sched_reachable; constructor | vm_compute; split; eauto]. Qed.
+
+(* the receiver sleeps in a blocking receive while a sender has linked a message and is
+   about to raise: the hypotheses of chan_receiver_not_stranded are met *)
+Definition ex_u_progs : list (list cop) := [[OURecv]; [OUSend 2 41]].
+Example ex_u_avail :
+  let s := fst (run_sched ChanK.M (ChanK.init 2 ex_u_progs) [0;0;0;0;0;0;0;0;0;0;0;0;0;1;1;1;1;1]%nat) in
+  reachable ChanK.M (ChanK.init 2 ex_u_progs) s /\
+  wkind (stk s 0%nat) = Some WKURecv /\ sleepy (ph 0 s) = true /\ avail_u s /\ at_rx (stk s 1%nat) = true.
+Proof. split; [apply run_sched_reachable; constructor | vm_compute; repeat split; discriminate]. Qed.
